@@ -168,11 +168,24 @@ impl<NonceSize: Unsigned, Rounds, IsX> ChaChaAny<NonceSize, Rounds, IsX> {
     }
 }
 
-impl<NonceSize, Rounds: Unsigned, IsX> ChaChaAny<NonceSize, Rounds, IsX> {
+impl<NonceSize: Unsigned, Rounds: Unsigned, IsX> ChaChaAny<NonceSize, Rounds, IsX> {
     #[inline]
     fn try_apply_keystream(&mut self, data: &mut [u8]) -> Result<(), ()> {
-        self.state
-            .try_apply_keystream::<WideEnabled>(data, Rounds::U32)
+        if NonceSize::U32 != 12 {
+            return self
+                .state
+                .try_apply_keystream::<WideEnabled>(data, Rounds::U32);
+        }
+        // The block API increments a 64-bit counter. With a 32-bit counter the word above it is
+        // part of the nonce, so the carry out of the last block must not stick.
+        let before: [u32; 4] = self.state.state.d.into();
+        let res = self
+            .state
+            .try_apply_keystream::<WideEnabled>(data, Rounds::U32);
+        let mut after: [u32; 4] = self.state.state.d.into();
+        after[1] = before[1];
+        self.state.state.d = after.into();
+        res
     }
 }
 
@@ -232,7 +245,7 @@ impl<NonceSize: Unsigned, Rounds, IsX> StreamCipherSeek for ChaChaAny<NonceSize,
     }
 }
 
-impl<NonceSize, Rounds: Unsigned, IsX> StreamCipher for ChaChaAny<NonceSize, Rounds, IsX> {
+impl<NonceSize: Unsigned, Rounds: Unsigned, IsX> StreamCipher for ChaChaAny<NonceSize, Rounds, IsX> {
     #[inline]
     fn try_apply_keystream(&mut self, data: &mut [u8]) -> Result<(), LoopError> {
         Self::try_apply_keystream(self, data).map_err(|_| LoopError)
